@@ -122,6 +122,10 @@ func (tr *c17Transport) RoundTrip(req *http.Request) (*http.Response, error) {
 			at = len(body) - 1
 		}
 		rc = &c17TornReader{data: body, at: at}
+	case "read-error-after-body":
+		// every byte of a complete document is delivered, then the read fails (connection cut
+		// before the announced length): the failure must still surface
+		rc = &c17TornReader{data: append(body, ' '), at: len(body)}
 	case "empty":
 		rc = io.NopCloser(bytes.NewReader(nil))
 	case "malformed":
@@ -169,7 +173,7 @@ func genC17(t *simrt.Tape, tier string) Scenario {
 		}
 	}
 	sc.BodyKind = []string{"obj", "obj", "none"}[t.Choose(3)]
-	faults := []string{"none", "none", "none", "serializer", "transport", "torn", "empty", "malformed", "deserializer-nil", "missing-file"}
+	faults := []string{"none", "none", "none", "serializer", "transport", "torn", "empty", "malformed", "deserializer-nil", "missing-file", "read-error-after-body"}
 	sc.Fault = faults[t.Choose(len(faults))]
 	sc.TornAt = t.Choose(12)
 	sc.Evals = []int{1, 0, 2, 3}[t.Choose(4)]
@@ -370,7 +374,7 @@ func (sc *c17Scenario) Run(s *simrt.Sim) {
 			add("response", "nil-response", fmt.Sprintf("evaluation %d returned a nil *APIResponse", i))
 			continue
 		}
-		failing := wantSent == 0 || sc.Fault == "transport" || sc.Fault == "torn" || sc.Fault == "empty" || sc.Fault == "malformed" || sc.Fault == "deserializer-nil"
+		failing := wantSent == 0 || sc.Fault == "transport" || sc.Fault == "torn" || sc.Fault == "empty" || sc.Fault == "malformed" || sc.Fault == "deserializer-nil" || sc.Fault == "read-error-after-body"
 		if failing {
 			sc.probes["fault-"+sc.Fault]++
 			if resp.Err == nil {
